@@ -143,6 +143,7 @@ class L2Runner:
             env = {n: odd.get(n, "\n") for n in names}
         else:
             env = {"HOME": "/home/user", "PATH": "/usr/bin:/bin", "LANG": "C", "USER": "user", "LOGNAME": "user", "TMPDIR": "/tmp", "PWD": "/", "SHELL": "/bin/sh", "TERM": "dumb"}
+        env["CLISIM_MAXITER"] = meta.get("maxiter", "0")
         env["CLISIM_SHIM"] = "%s %s %s %s %s %s" % (cs, cm, meta.get("readerr", "-1"), meta.get("eintr", "-1"), meta.get("sinkfail_out", "-1"), meta.get("sinkfail_err", "-1"))
         env["UBSAN_OPTIONS"] = ENV["UBSAN_OPTIONS"]
         exe = binary or self.l2
@@ -284,6 +285,7 @@ def main(a):
         parts["boundary"] = batch("BOUNDARY", 0, 0, counts.get("BOUNDARY", 0))
         sk = "SCALE" if thorough else "SCALEQ"
         parts["scale"] = batch(sk, 0, 0, counts.get(sk, 0))
+        parts["knob"] = batch("KNOB", 0, 0, counts.get("KNOB", 0))
         t_enum = time.time() - t1
         t1 = time.time()
         if thorough:
@@ -348,7 +350,7 @@ def main(a):
                         twin_cands.append({"run": r, "kind": kind, "seed": seed})
         t_twin = time.time() - t1
 
-        kinds = {"corpus": "CORPUS", "prefix": pk, "token": tk, "random": "RUNS", "light": "LIGHT", "config": ck, "arglen": "ARGLEN", "cmdline": "CMDLINE", "env": "ENV", "blocks": bk, "boundary": "BOUNDARY", "scale": sk}
+        kinds = {"corpus": "CORPUS", "prefix": pk, "token": tk, "random": "RUNS", "light": "LIGHT", "config": ck, "arglen": "ARGLEN", "cmdline": "CMDLINE", "env": "ENV", "blocks": bk, "boundary": "BOUNDARY", "scale": sk, "knob": "KNOB"}
         cands = []
         for name, part in parts.items():
             for c in part["candidates"]:
@@ -550,6 +552,9 @@ def main(a):
                     "moderately_scaled_values": {"kind": sk, "runs": parts["scale"]["executed"], "of": counts.get(sk, 0),
                                                  "what": "every numeric value token of every data line of " + ("every shipped file" if thorough else "input/example.*") + " multiplied by each of -1, 0.001, 0.1, 0.5, 0.9, 1.1, 2, 10, 1000, 1e6 (documents stay well-formed; the physics point moves) x force_output on/off",
                                                  "complete": parts["scale"]["executed"] == counts.get(sk, 0)},
+                    "lowered_iteration_budget": {"kind": "KNOB", "runs": parts["knob"]["executed"], "of": counts.get("KNOB", 0),
+                                                 "what": "iteration budget of the DR-bar to on-shell conversion lowered to 1, 2, 3 and 10 (guarded hook in src/gm2calc.cpp; shipped value 1000, never raised) on every intact SLHA-type shipped file and on every moderately scaled value of input/example.slha",
+                                                 "complete": parts["knob"]["executed"] == counts.get("KNOB", 0)},
                     "config_combinations": {"kind": ck, "runs": parts["config"]["executed"], "of": counts.get(ck, 0),
                                             "what": "all 480 valid GM2CalcConfig combinations (5 output formats x 3 loop orders x 2^5 switches) appended to " + ("every shipped file" if thorough else "input/example.* and three problem points"),
                                             "complete": parts["config"]["executed"] == counts.get(ck, 0)},
